@@ -326,8 +326,16 @@ def source_model(draw, palette, library=None, vb=None, max_shapes=6, solid_only=
             k, m = draw(placement(vb, "translate" if has_arc(unit) else draw(st.sampled_from(["translate", "rotate", "nuscale", "translate_far"]))))
             cmds = transform_cmds(unit, m)
             tag = "fresh"
+        if cmds[-1] == ["Z"] and not has_arc(cmds) and draw(st.sampled_from([False] * 7 + [True])):
+            cmds = cmds[:-1]  # last sub-path left open: filled as if closed (SVG), and a legal normal form
+            tag += "+open"
+        earlier = [x["fill"] for x in nodes if x["fill"]["k"] != "solid"]
         if paint_lib and not solid_only and draw(st.sampled_from([False] * 5 + [True])):
             fill = paint_lib[draw(st.integers(0, len(paint_lib) - 1))]  # the very same gradient in several glyphs
+        elif earlier and draw(st.sampled_from([False] * 3 + [True])):
+            # one gradient element referenced by several shapes of the glyph (objectBoundingBox units then mean a different
+            # geometry for every shape that uses it)
+            fill = dict(earlier[draw(st.integers(0, len(earlier) - 1))])
         else:
             fill = draw(paint_st(palette, cmds_bbox(cmds), solid_only, p_grad))
         nodes.append({"t": "p", "d": cmds, "fill": fill, "op": draw(opacity_st), "tag": tag})
@@ -340,7 +348,10 @@ def source_model(draw, palette, library=None, vb=None, max_shapes=6, solid_only=
             inner = {"t": "g", "op": round(draw(st.floats(0.1, 0.9)), 3), "kids": grp["kids"][:2]}
             grp["kids"] = [inner] + grp["kids"][2:]
         nodes = nodes[:a] + [grp] + nodes[b:]
-    return {"vb": vb, "nodes": nodes}
+    model = {"vb": vb, "nodes": nodes}
+    if draw(st.sampled_from([False] * 4 + [True])):
+        model["dup_defs"] = True  # every shape gets its own copy of the gradient element
+    return model
 
 
 @st.composite
@@ -376,13 +387,25 @@ def _paint_xml(p, gid):
 def render(model, nd=6):
     defs = []
     counter = [0]
+    shared = {}  # identical gradients are written once and referenced by every shape that uses them (unless "dup_defs")
 
     def node_xml(n):
         if n["t"] == "g":
             return '<g opacity="%s">%s</g>' % (fnum(n["op"]), "".join(node_xml(k) for k in n["kids"]))
         gid = "g%d" % counter[0]
         counter[0] += 1
-        fill, d = _paint_xml(n["fill"], gid)
+        key = None
+        if n["fill"]["k"] != "solid" and not model.get("dup_defs"):
+            import json
+
+            key = json.dumps(n["fill"], sort_keys=True)
+            if key in shared:
+                fill, d = "url(#%s)" % shared[key], None
+            else:
+                shared[key] = gid
+                fill, d = _paint_xml(n["fill"], gid)
+        else:
+            fill, d = _paint_xml(n["fill"], gid)
         if d:
             defs.append(d)
         op = "" if n["op"] == 1.0 else ' opacity="%s"' % fnum(n["op"])
